@@ -372,6 +372,9 @@ let run_srv toks =
             (match spawn with
              | Some (ASpawnSend (path, o, rep, check)) ->
                (match stat !root path with
+                | Some (NFile _) when first <> None && cont = "M" ->
+                  (* the window is retransmitted when the negotiated timeout has elapsed *)
+                  emit ("rt=" ^ dec_of_n o.wo_tmo_s)
                 | Some (NFile content) ->
                   if first <> None && cont = "D" then begin
                     let (datas, ph) = run_download o rep check content in
@@ -446,7 +449,7 @@ let srv_steps (steps : string) (impl : string) : steprec list * string =
       let dg = match fields with f :: _ -> if f = "-" then [] else bytes_of_hex f | [] -> [] in
       let cont = match fields with _ :: x :: _ -> x | _ -> "-" in
       let r = next () in
-      let x = if starts_with (peek ()) "dl=" || starts_with (peek ()) "ul=" then next () else "" in
+      let x = if starts_with (peek ()) "dl=" || starts_with (peek ()) "ul=" || starts_with (peek ()) "rt=" then next () else "" in
       Some { skind = step.[0]; sdg = dg; scont = cont; sreply = r; sxfer = x }
     end) (String.split_on_char ';' steps) in
   (recs, peek ())
@@ -615,6 +618,10 @@ let mon_srv prop case impl =
                   match kind_of init path with
                   | FkMissing -> bad "valid-request-with-honourable-options-not-answered"
                   | _ -> ())
+           end;
+           if starts_with r.sxfer "rt=" then begin
+             let want = List.fold_left (fun a o -> if o.o_type = OTimeout then dec_of_n o.o_val else a) "5" ros in
+             if r.sxfer <> "rt=" ^ want then bad "retransmission-interval-differs-from-the-acknowledged-timeout"
            end;
            if is_oack && ros = [] then bad "oack-without-a-recognised-option";
            if is_oack && List.exists unhonourable ros then bad "unhonourable-value-acknowledged";
@@ -934,6 +941,23 @@ let mon_cli case impl =
     end
   | _ -> "fail:unparsable"
 
+(* ---- BIN: the real binaries ---- *)
+let run_bin toks =
+  match toks with
+  | [_; "start"; args] ->
+    let argv = if args = "-" then [] else List.map (fun t -> if t = "_" then [] else bytes_of_hex t) (String.split_on_char ',' args) in
+    (* "@D" names an existing directory, "@P" a free port; the only IP literals used are decided here *)
+    let ex s = (string_of_bytes s = "@D") in
+    let argv = List.map (fun a -> if string_of_bytes a = "@P" then bytes_of_string "4242" else a) argv in
+    let pip s = (match string_of_bytes s with "127.0.0.1" | "0.0.0.0" | "::1" -> Some s | _ -> None) in
+    (match parse_args ex pip (bytes_of_string "/cwd") (bytes_of_string "tftpd" :: argv) with
+     | COk _ -> "running"
+     | CErr _ -> "exit=1"
+     | CHelp -> "exit=0")
+  | [_; "rt"; _; tmo] -> "rt=" ^ tmo
+  | [_; "xfer"; _; _; _; _; _; _] -> "res=0 same=1"   (* C14: interop theorems - every valid choice completes byte-identically *)
+  | _ -> failwith "bad bin case"
+
 (* ---- CFG ---- *)
 let untok t = if t = "_" then [] else bytes_of_hex t
 let tok b = match b with [] -> "_" | _ -> hex_of_bytes b
@@ -1187,6 +1211,14 @@ let run_mon (line : string) : string =
              | "recv" :: _ -> mon_recv prop case impl
              | "srv" :: _ -> mon_srv prop case impl
              | "cli" :: _ -> if prop = "C14" then mon_cli case impl else "skip"
+             | ["bin"; "start"; args] ->
+               (* a start-up with --duplicate-packets N, N >= 255 or not a u8, must be rejected *)
+               if prop = "C16" || prop = "C17" then begin
+                 let argv = if args = "-" then [] else List.map (fun t -> if t = "_" then [] else bytes_of_hex t) (String.split_on_char ',' args) in
+                 if impl = "running" && not (okDupArgs argv) then "fail:duplicate-packets>=255-accepted-at-start-up" else "pass"
+               end else "skip"
+             | ["bin"; "rt"; _; tmo] -> if prop = "C09" then (if impl = "rt=" ^ tmo then "pass" else "fail:retransmission-interval-differs-from-the-acknowledged-timeout") else "skip"
+             | "bin" :: "xfer" :: _ -> if prop = "C14" then (if impl = "res=0 same=1" then "pass" else "fail:binaries-do-not-interoperate-byte-exactly") else "skip"
              | "conc" :: _ -> if prop = "C12" || prop = "C05" then mon_conc prop case impl else "skip"
              | "pair" :: _ -> if prop = "C04" || prop = "C14" || prop = "C16" then mon_pair prop case impl else "skip"
              | "cfgperm" :: _ -> if prop = "C17" then (match mon_cfgperm impl with "pass" -> mon_cfg_dup case impl | v -> v)
@@ -1209,6 +1241,7 @@ let run_line (line : string) : string =
   | "pair" :: _ -> run_pair toks
   | "conc" :: _ -> run_conc toks
   | "cli" :: _ -> run_cli toks
+  | "bin" :: _ -> run_bin toks
   | "cfg" :: _ -> run_cfg toks
   | "cfgperm" :: _ -> run_cfgperm toks
   | "ccfg" :: _ -> run_ccfg toks
